@@ -154,6 +154,21 @@ theorem c19_no_deadlock (tr : List Ev) (s : State) (h : Exec tr s) :
   case ncClr => exact ⟨.sUnlock, by simp [step, h2, critS]⟩
   case sending => exact ⟨.sSent, by simp [step]⟩
 
+/-! ### what an accepted trace means -/
+
+/-- soundness of the trace acceptor `drv_c19` runs on the shim's logs: if a list of observed
+events is accepted, then every final candidate state is reached by an execution of the
+protocol model whose observable part (everything but the plain loads/stores of `need_copy`
+and the socket I/O) is exactly the observed list — so every theorem above applies to it -/
+theorem c19_accepted_trace_is_execution (obs : List Obs) (finals : List State)
+    (h : accept obs = .ok finals) :
+    ∀ f ∈ finals, ∃ tr, Exec tr f ∧ observable tr = obs.map (·.ev) := by
+  intro f hf
+  obtain ⟨s0, h0, tr, r, p⟩ := acceptFrom_sound obs [init] 0 finals h f hf
+  simp only [List.mem_singleton] at h0
+  subst h0
+  exact ⟨tr, r, p⟩
+
 /-! ### independent simulations -/
 
 /-- any two interleavings of independent machines with the same per-machine event sequences
